@@ -9,11 +9,15 @@
 #include <sys/wait.h>
 #include <signal.h>
 
-enum { E_NOP, E_THROW, E_LIBTHROW, E_TRY, E_CATCH, E_END, E_CALL, E_RET, E_NOPS };
+enum { E_NOP, E_THROW, E_LIBTHROW, E_TRY, E_CATCH, E_END, E_CALL, E_RET, E_GARBAGE, E_NOPS };
 static const OpInfo OPS[E_NOPS] = {
-  [E_NOP] = { "nop", 0 }, [E_THROW] = { "throw", 1 }, [E_LIBTHROW] = { "libthrow", 1 },
-  [E_TRY] = { "try", 3 },      /* filtermask(6 bits, 0 = catch all) arity lexical */
+  [E_NOP] = { "nop", 0 },
+  [E_THROW] = { "throw", 2 },  /* kind; flags: 1 = throw the twin (an equal but distinct object), 2 = a message argument whose Show
+                                  handles an exception of its own, 4 = the collector's next registration collects */
+  [E_LIBTHROW] = { "libthrow", 1 },
+  [E_TRY] = { "try", 3 },      /* filtermask(6 bits, 0 = catch all; bits 6..11: that filter names the twin) arity lexical */
   [E_CATCH] = { "catch", 0 }, [E_END] = { "end", 0 }, [E_CALL] = { "call", 0 }, [E_RET] = { "ret", 0 },
+  [E_GARBAGE] = { "garbage", 2 },   /* count of unreachable objects whose destructor handles an exception of its own; its kind */
 };
 
 #define NKIND 6
@@ -22,10 +26,14 @@ static var KIND(int k) {
                case 3: return TypeError; case 4: return ClassError; default: return FormatError; }
 }
 static const char* KNAME_[NKIND] = { "IndexOutOfBoundsError", "KeyError", "ValueError", "TypeError", "ClassError", "FormatError" };
-static int kind_of(var e) { for (int k = 0; k < NKIND; k++) if (e is KIND(k)) return k; return -1; }
+/* twins: run-time type objects with the same names, so eq(KIND(k), TWIN(k)) holds although they are two objects; an exception
+ * value is k (the built-in object) or k+8 (its twin).  Matching is by equality, binding must be by identity. */
+static var g_twin[NKIND];
+static var XOBJ(int x) { return (x & 8) ? g_twin[x & 7] : KIND(x & 7); }
+static int kind_of(var e) { for (int k = 0; k < NKIND; k++) { if (e is KIND(k)) return k; if (e is g_twin[k]) return k + 8; } return -1; }
 
 /* ---------------------------------------------------------- program tree */
-enum { S_NOP, S_THROW, S_LIBTHROW, S_TRY, S_CALL };
+enum { S_NOP, S_THROW, S_LIBTHROW, S_TRY, S_CALL, S_GARBAGE };
 #define MAXNODE 512
 typedef struct TNode {
   int kind, id, arg;
@@ -53,7 +61,8 @@ static int parse_stmt(Prog* p, OpStream* s, int depth) {
   memset(t, 0, sizeof *t); t->id = idx;
   switch (o->code) {
     case E_NOP: t->kind = S_NOP; break;
-    case E_THROW: t->kind = S_THROW; t->arg = (int)(((o->a[0] % NKIND) + NKIND) % NKIND); break;
+    case E_THROW: t->kind = S_THROW; t->arg = (int)(((o->a[0] % NKIND) + NKIND) % NKIND) | ((o->a[1] & 1) ? 8 : 0); t->f[0] = (int)(o->a[1] & 6); break;
+    case E_GARBAGE: t->kind = S_GARBAGE; t->arg = 1 + (int)(((o->a[0] % 8) + 8) % 8); t->f[0] = (int)(((o->a[1] % NKIND) + NKIND) % NKIND); break;
     case E_LIBTHROW: t->kind = g_nolib ? S_THROW : S_LIBTHROW; t->arg = (int)(((o->a[0] % NKIND) + NKIND) % NKIND); break;
     case E_CALL: {
       t->kind = S_CALL;
@@ -70,7 +79,7 @@ static int parse_stmt(Prog* p, OpStream* s, int depth) {
       /* filters: up to `ar` distinct kinds taken from the mask bits in order, arity 0 = catch all */
       int ks[NKIND], nk = 0; for (int k = 0; k < NKIND; k++) if (mask & (1 << k)) ks[nk++] = k;
       /* never the same object twice: a Tuple's cursor is identity based, catch (e in A, A) would not terminate */
-      if (nk == 0 || ar == 0) t->nf = 0; else { t->nf = ar < nk ? ar : nk; for (int i = 0; i < t->nf; i++) t->f[i] = ks[i]; }
+      if (nk == 0 || ar == 0) t->nf = 0; else { t->nf = ar < nk ? ar : nk; for (int i = 0; i < t->nf; i++) t->f[i] = ks[i] | (((o->a[0] >> (6 + ks[i])) & 1) ? 8 : 0); }
       int first; int n = parse_block(p, s, &first, STOP_CATCH | STOP_END, depth + 1);
       t = &p->n[idx]; t->body = first; t->nbody = n;
       if (s->pos < s->n && s->ops[s->pos]->code == E_CATCH) {
@@ -138,14 +147,14 @@ static int g_model_in_handler;
 static int model_stmt(int th, Prog* p, int idx) {
   TNode* t = &p->n[idx];
   switch (t->kind) {
-    case S_NOP: exp_emit(th, EV_STMT, t->id, 0); return 0;
+    case S_NOP: case S_GARBAGE: exp_emit(th, EV_STMT, t->id, 0); return 0;
     case S_THROW: case S_LIBTHROW: exp_emit(th, EV_THROW, t->id, t->arg); if (g_model_in_handler) stat_add("exc.throw_in_handler", 1); return t->arg + 1;
     case S_CALL: return model_block(th, p, t->body, t->nbody);
     default: {
       int r = model_block(th, p, t->body, t->nbody);
       if (r == 0) { exp_emit(th, EV_AFTER, t->id, 0); return 0; }
       int x = r - 1, match = t->nf == 0;
-      for (int i = 0; i < t->nf; i++) if (t->f[i] == x) match = 1;
+      for (int i = 0; i < t->nf; i++) if ((t->f[i] & 7) == (x & 7)) match = 1;   /* a filter matches what is equal to it */
       if (!match) return r;
       exp_emit(th, EV_HANDLER, t->id, x);
       g_model_in_handler++;
@@ -170,6 +179,41 @@ static void check_depth(size_t before, TNode* t) {
   if (now != before) viol("C07", "C07:depth-changed", "nesting depth %zu before and %zu after try construct %d", before, now, t->id);
 }
 
+/* exceptions inside functions the machinery itself calls: a message argument whose Show, and an unreachable object whose
+ * destructor, raise and handle an exception of their own (complete constructs, depth restored) */
+static __thread int t_quiet;    /* thread teardown: destructors stay silent */
+static void nested_construct(int k, const char* where) {
+  size_t depth = len(current(Exception));
+  var got = NULL;
+  try { throw(KIND(k), "raised and handled inside %s", $S((char*)where)); } catch (e) { got = e; }
+  if (got isnt KIND(k)) viol("C07", "C07:wrong-exception-bound", "construct inside %s: handler bound %s", where, got ? "another object" : "nothing");
+  if (len(current(Exception)) != depth) viol("C07", "C07:depth-changed", "construct inside %s changed the nesting depth", where);
+}
+struct Shower { int64_t k; };
+static int Shower_Show(var self, var out, int pos) {
+  struct Shower* s = self;
+  nested_construct((int)s->k, "a Show called by throw");
+  stat_add("exc.show_with_exception", 1);
+  return print_to(out, pos, "shown");
+}
+static var Shower = Cello(Shower, Instance(Show, Shower_Show, NULL));
+struct Dtor { int64_t k; };
+static void Dtor_Del(var self) {
+  struct Dtor* d = self;
+  if (t_quiet || g_trace_fd >= 0) return;
+  nested_construct((int)d->k, "a destructor");
+  stat_add("exc.destructor_with_exception", 1);
+}
+static var Dtor = Cello(Dtor, Instance(New, NULL, Dtor_Del));
+static __attribute__((noinline)) void make_garbage(int n, int k) {
+#ifndef CELLO_NGC
+  for (int i = 0; i < n; i++) { struct Dtor* d = new(Dtor); d->k = k; }
+  stat_add("exc.garbage_objects", n);
+#else
+  (void)n; (void)k;
+#endif
+}
+
 static var g_tree;   /* a raw Tree kept for the FormatError library call */
 static void lib_throw(int k) {
   /* a genuine library call that raises kind k (none of them allocates, so the non-local exit leaks nothing) */
@@ -190,9 +234,9 @@ static void on_handler(TNode* t, var e) {
 }
 
 #define HANDLE(P_, T_, E_) do { on_handler(T_, E_); run_block(P_, (T_)->hand, (T_)->nhand); } while (0)
-#define F0(T_) KIND((T_)->f[0])
-#define F1(T_) KIND((T_)->f[1])
-#define F2(T_) KIND((T_)->f[2])
+#define F0(T_) XOBJ((T_)->f[0])
+#define F1(T_) XOBJ((T_)->f[1])
+#define F2(T_) XOBJ((T_)->f[2])
 
 /* one try construct whose body is BODY (a statement), in the current function */
 #define TRY_CONSTRUCT(P_, T_, EV_, BODY) do { \
@@ -251,7 +295,13 @@ static void run_stmt(Prog* p, int idx) {
   TNode* t = &p->n[idx];
   switch (t->kind) {
     case S_NOP: act_emit(t_self, EV_STMT, t->id, 0); break;
-    case S_THROW: act_emit(t_self, EV_THROW, t->id, t->arg); stat_add("exc.throw", 1); throw(KIND(t->arg), "thrown by statement %i", $I(t->id)); break;
+    case S_GARBAGE: act_emit(t_self, EV_STMT, t->id, 0); if (!g_nolib) { make_garbage(t->arg, t->f[0]); sim_scrub_stack(); } break;
+    case S_THROW:
+      act_emit(t_self, EV_THROW, t->id, t->arg); stat_add("exc.throw", 1);
+      if (t->arg & 8) stat_add("exc.throw_twin", 1);
+      if ((t->f[0] & 4) && !g_nolib) { glue_gc_prime(0); stat_add("exc.throw_at_collection_point", 1); }
+      if (t->f[0] & 2) throw(XOBJ(t->arg), "thrown by statement %i with %$", $I(t->id), $(Shower, (t->id + t->arg) % NKIND));
+      throw(XOBJ(t->arg), "thrown by statement %i", $I(t->id)); break;
     case S_LIBTHROW: act_emit(t_self, EV_THROW, t->id, t->arg); stat_add("exc.throw_from_library", 1); lib_throw(t->arg); break;
     case S_CALL: run_call(p, t); break;
     default: run_try(p, t); break;
@@ -265,6 +315,7 @@ static void run_program(int th) {
   run_block(p, p->top, p->ntop);
   act_emit(th, EV_DONE, 0, 0);
   if (len(current(Exception)) != 0) viol("C07", "C07:depth-changed", "thread %d: nesting depth %zu after the whole program", th, len(current(Exception)));
+  t_quiet = 1;
 }
 
 static var thread_entry(var args) {
@@ -304,11 +355,11 @@ static void run_uncaught_program(int kind_expected) {
   int st = 0; waitpid(pid, &st, 0);
   act_emit(0, EV_UNCAUGHT, 0, kind_expected);
   if (WIFSIGNALED(st) && WTERMSIG(st) == SIGALRM)
-    viol("C07", "C07:nontermination", "program with an uncaught %s did not terminate", KNAME_[kind_expected]);
+    viol("C07", "C07:nontermination", "program with an uncaught %s did not terminate", KNAME_[kind_expected & 7]);
   if (!WIFEXITED(st) || WEXITSTATUS(st) == 0)
-    viol("C07", "C07:uncaught-no-failure-status", "uncaught %s: process status %d (exited=%d)", KNAME_[kind_expected], WIFEXITED(st) ? WEXITSTATUS(st) : -WTERMSIG(st), WIFEXITED(st));
-  if (!strstr(err, "Uncaught") || !strstr(err, KNAME_[kind_expected]))
-    viol("C07", "C07:uncaught-no-diagnostic", "uncaught %s: stderr does not name it", KNAME_[kind_expected]);
+    viol("C07", "C07:uncaught-no-failure-status", "uncaught %s: process status %d (exited=%d)", KNAME_[kind_expected & 7], WIFEXITED(st) ? WEXITSTATUS(st) : -WTERMSIG(st), WIFEXITED(st));
+  if (!strstr(err, "Uncaught") || !strstr(err, KNAME_[kind_expected & 7]))
+    viol("C07", "C07:uncaught-no-diagnostic", "uncaught %s: stderr does not name it", KNAME_[kind_expected & 7]);
   stat_add("exc.uncaught_programs", 1);
 }
 
@@ -330,6 +381,7 @@ static void count_features(int th) {
 static void exc_execute(const Plan* p) {
   int nth = (int)plan_env(p, "threads", 0); if (nth > MAXTH - 1) nth = MAXTH - 1; if (nth < 0) nth = 0;
   g_nolib = (int)plan_env(p, "nolib", 0);
+  for (int k = 0; k < NKIND; k++) g_twin[k] = new_raw(Type, $S((char*)KNAME_[k]), $I(0));
   for (int th = 0; th <= nth; th++) {
     P[th] = harness_alloc(sizeof(Prog)); EXP[th] = harness_alloc(sizeof(Trace));
     OpStream* s = harness_alloc(sizeof(OpStream));
@@ -376,11 +428,16 @@ static void gen_stmt(Plan* p, Rng* r, int tid, int depth, int* budget, int in_ha
   uint32_t d = rng_below(r, 100);
   (*budget)--;
   if (depth == 0 && d >= 30 && d < 48 && rng_chance(r, 3, 4)) d = 70;     /* few bare throws at top level */
+  if (d >= 24 && d < 30 && plan_env(p, "plainexc", 0) == 0) { plan_add(p, E_GARBAGE, tid, 0, rng_below(r, 8), rng_below(r, NKIND), 0, 0, 0, 0); return; }
   if (d < 30 || depth >= 5 || *budget < 3) { plan_add(p, E_NOP, tid, 0, 0, 0, 0, 0, 0, 0); return; }
-  if (d < 48) { plan_add(p, rng_chance(r, 1, 4) ? E_LIBTHROW : E_THROW, tid, 0, rng_below(r, NKIND), 0, 0, 0, 0, 0); return; }
+  if (d < 48) {
+    int fl = 0;
+    if (plan_env(p, "plainexc", 0) == 0) fl = (rng_chance(r, 1, 4) ? 1 : 0) | (rng_chance(r, 1, 6) ? 2 : 0) | (rng_chance(r, 1, 5) ? 4 : 0);
+    plan_add(p, rng_chance(r, 1, 4) ? E_LIBTHROW : E_THROW, tid, 0, rng_below(r, NKIND), fl, 0, 0, 0, 0); return; }
   if (d < 58) { plan_add(p, E_CALL, tid, 0, 0, 0, 0, 0, 0, 0); gen_block(p, r, tid, depth + 1, budget, in_handler); plan_add(p, E_RET, tid, 0, 0, 0, 0, 0, 0, 0); return; }
   int mask = rng_chance(r, 1, 3) ? 0 : (int)(1 + rng_below(r, 63));
   if (rng_chance(r, 1, 3)) mask = 1 << rng_below(r, NKIND);
+  if (plan_env(p, "plainexc", 0) == 0 && rng_chance(r, 1, 3)) mask |= (int)rng_below(r, 64) << 6;
   plan_add(p, E_TRY, tid, 0, mask, rng_below(r, 4), rng_below(r, 2), 0, 0, 0);
   gen_block(p, r, tid, depth + 1, budget, in_handler);
   plan_add(p, E_CATCH, tid, 0, 0, 0, 0, 0, 0, 0);
